@@ -34,6 +34,9 @@ QUANT_SPECS = [
     'where forall <i> in <item>: exists <n> in <i>..<d>: int(<n>) > 1\nwhere any(int(x) == 12 for x in *<num>)\n',
     '<start> ::= <n> <x>{int(<n>)} ";" <d>\n<n> ::= "1" | "2" | "3"\n<x> ::= "a" | "b"\n<d> ::= "0" | "5" | "9"\n'
     'where forall <y> in <x>: str(<y>) == "a"\nwhere int(<d>) > int(<n>)\n',
+    # a quantifier body that also mentions a symbol the quantifier does not bind (its verdict depends on the whole tree)
+    '<start> ::= <max> ":" <item> ("," <item>)*\n<max> ::= <d>\n<item> ::= <d>\n<d> ::= "0" | "1" | "2" | "3" | "4" | "5" | "6" | "7" | "8" | "9"\n'
+    'where forall <x> in <item>: int(<x>) <= int(<max>)\n',
 ]
 
 
